@@ -77,4 +77,9 @@ def errOf {α : Type} : PyM α → Option PyErr
 /-- parse a document given as a string literal -/
 def parseDoc (s : String) : PyM (List OFamily) := omParse toyP s.toList
 
+def isOkDoc (s : String) : Bool :=
+  match parseDoc s with
+  | .ok _ => true
+  | .error _ => false
+
 end PromVerif.Lemmas.OMToy
